@@ -560,6 +560,13 @@ impl UntypedProgram {
                         }
                     }
                 }
+                if !matches!(const_def.ty, Type::Bool | Type::Unsigned(_) | Type::Signed(_)) {
+                    // consts are Booleans or integers (other types are not resolved here and
+                    // would reach the exhaustiveness check / the compiler unresolved)
+                    let e = TypeErrorEnum::ExpectedBoolOrNumberType(const_def.ty.clone());
+                    errors.push(Some(TypeError::new(e, const_def.meta)));
+                    continue;
+                }
                 check_const_expr(
                     &const_def.value,
                     const_def,
